@@ -22,10 +22,10 @@ Runs == ndJsonDeserialize(IOEnv.CONF)
 VARIABLES l, ti
 cvars == <<vars, l, ti>>
 
-Cmp == {"out", "h_start", "h_end", "ctl", "ctl_done", "conn_done", "h_drop"}
+Cmp == {"out", "h_start", "h_end", "h_read", "ctl", "ctl_done", "conn_done", "h_drop"}
 \* h_end.r echoes the code the command armed, h_start.r the PUBLISH flags (input data, judged by ProtoMon)
 \* x: only the topic a publish handler was given is compared
-P(ev) == [e |-> ev.e, k |-> ev.k, s |-> ev.s, id |-> ev.id, q |-> ev.q, r |-> IF ev.e \in {"h_end", "h_start", "ctl"} THEN 0 ELSE ev.r,
+P(ev) == [e |-> ev.e, k |-> ev.k, s |-> ev.s, id |-> IF ev.e = "h_read" THEN 0 ELSE ev.id, q |-> IF ev.e = "h_read" THEN 0 ELSE ev.q, r |-> IF ev.e \in {"h_end", "h_start", "ctl"} THEN 0 ELSE ev.r,
           x |-> IF ev.e = "h_start" /\ ev.k = "pub" THEN ev.x ELSE ""]
 \* what the endpoint writes to the wire is observed on the peer side at the next quiescence, so the position of
 \* `out` events relative to the other events of one command is an artefact: both sides list the other events
@@ -42,7 +42,7 @@ CInit == Init /\ l = 1 /\ ti = 1
 Reset == st' = Init0 /\ mon' = InitMon /\ hist' = << >> /\ pred' = << >>
 
 TokAct(t) == IF t.a = "x" THEN (\E k \in Ends : EndTok(st, k) = t.o /\ End(k)) ELSE IF t.a = "in" THEN In(t.pk, t.arm)
-          ELSE \E gi \in 1..Len(st.gates) : st.gates[gi].h = t.h /\ Complete(gi, t.o)
+          ELSE \E gi \in 1..Len(st.gates) : st.gates[gi].h = t.h /\ Complete(gi, t.o, t.rd)
 
 StepTok ==
   /\ l <= Len(Runs) /\ ti <= Len(Runs[l].toks)
